@@ -389,7 +389,14 @@ impl Prop for C04 {
         let lc = LayoutCfg::default();
         if !malformed {
             let cfg = GenCfg::default();
-            let d = doccase::gen_doc(&mut s, &cfg, &lc)?;
+            let d = if s.chance(1, 8) {
+                let (primer, d) = doccase::gen_primed_doc(&mut s, &cfg, &lc)?;
+                let _ = imp::run_one(&primer);
+                st.class("primed");
+                d
+            } else {
+                doccase::gen_doc(&mut s, &cfg, &lc)?
+            };
             st.eval();
             let ls = doccase::layout_stats(&d);
             st.class("family:well-formed");
